@@ -1,4 +1,5 @@
 import GoSQLXModel.Model.Segments
+import GoSQLXModel.Gen.Structure
 /-!
 # C12 — Recovery parsing terminates, agrees with strict parsing, loses no good statement
 
@@ -14,6 +15,16 @@ parseStatement (hook `VerifStmtAt`).
 -/
 namespace GoSQLXModel.Props.C12
 open GoSQLXModel GoSQLXModel.Loops
+
+/-- Obligation on the regenerated facts of `isStatementStartingKeyword` (pkg/sql/parser/recovery.go): the test is a
+    switch on the current token's *type* over exactly these seventeen keyword types and reads, calls and looks up
+    nothing else — so a string literal, a quoted name or an identifier is never a synchronisation point, whatever it
+    spells. This is the `start` predicate the recovery model is instantiated with; the harness quantifies its scripts
+    with the same set, decided from token types alone, and compares the two on every token. -/
+theorem gen_start_keyword_by_type :
+    Gen.Structure.recoveryStartTypes = ["Alter", "Begin", "Commit", "Create", "Delete", "Drop", "Grant", "Insert", "Merge",
+      "Refresh", "Revoke", "Rollback", "Select", "Set", "Truncate", "Update", "With"] ∧
+    Gen.Structure.recoveryStartOther = [] := by decide +kernel
 
 theorem recovery_terminates (I : Input) (hF : Frame I) : ∃ r, recLoop I (I.n + 2) 0 [] [] = some r :=
   recover_terminates I hF [] []
